@@ -266,3 +266,42 @@ pub fn b2a(bs: &[u8]) -> Vec<u64> {
 pub fn a2b(a: &[u64]) -> Vec<u8> {
     a.iter().map(|b| *b as u8).collect()
 }
+
+/// A UDP relay between a client and `server` that can be told to drop every packet (both
+/// directions): the only way to keep stream data unacknowledged on loopback.
+pub struct Relay {
+    pub addr: SocketAddr,
+    pub dropping: Arc<std::sync::atomic::AtomicBool>,
+    task: tokio::task::JoinHandle<()>,
+}
+impl Drop for Relay {
+    fn drop(&mut self) {
+        self.task.abort();
+    }
+}
+pub async fn relay(server: SocketAddr) -> Relay {
+    use std::sync::atomic::Ordering;
+    let sock = tokio::net::UdpSocket::bind("127.0.0.1:0").await.expect("relay socket");
+    let addr = sock.local_addr().unwrap();
+    let dropping = Arc::new(std::sync::atomic::AtomicBool::new(false));
+    let d2 = dropping.clone();
+    let task = tokio::spawn(async move {
+        let mut client: Option<SocketAddr> = None;
+        let mut buf = vec![0u8; 65536];
+        loop {
+            let (n, from) = match sock.recv_from(&mut buf).await { Ok(x) => x, Err(_) => return };
+            if d2.load(Ordering::SeqCst) {
+                continue;
+            }
+            if from == server {
+                if let Some(c) = client {
+                    let _ = sock.send_to(&buf[..n], c).await;
+                }
+            } else {
+                client = Some(from);
+                let _ = sock.send_to(&buf[..n], server).await;
+            }
+        }
+    });
+    Relay { addr, dropping, task }
+}
